@@ -514,11 +514,14 @@ void ScriptVM::Execute(const VarListView& data, const StringResolvable& label)
                 throw;
             }
 
-            *dbg << "Update of script position - This is not an error." << std::endl;
-            *dbg << "=================================================" << std::endl;
-            const ProgramScript* const scr = m_ScriptClass->GetScript();
-            scr->PrintSourcePos(*dbg, m_CodePos - scr->GetProgBuffer());
-            *dbg << "=================================================" << std::endl;
+            if (dbg)
+            {
+                *dbg << "Update of script position - This is not an error." << std::endl;
+                *dbg << "=================================================" << std::endl;
+                const ProgramScript* const scr = m_ScriptClass->GetScript();
+                scr->PrintSourcePos(*dbg, m_CodePos - scr->GetProgBuffer());
+                *dbg << "=================================================" << std::endl;
+            }
 
             nextTime = timeManager.GetTime() + Director.GetThreadExecutionProtection().GetMaxExecutionTime();
         }
@@ -1506,7 +1509,7 @@ bool ScriptVM::Process(ScriptContext& context, uinttime_t interruptTime)
             break;
         }
         default:
-            *dbg << "unknown opcode " << (uint32_t)*m_PrevCodePos << std::endl;
+            if (dbg) *dbg << "unknown opcode " << (uint32_t)*m_PrevCodePos << std::endl;
             break;
         }
 
